@@ -51,10 +51,11 @@ DefaultRootAttr(a) ==
   /\ a.ns = ""
   /\ CASE a.name = "version" -> a.lc = "1.1"
        [] a.name \in {"x", "y"} -> IsZeroDimension(a.val)
-       [] a.name = "preserveAspectRatio" -> a.lc = "xmidymid meet"
-       [] a.name = "baseProfile" -> a.lc = "none"
-       [] a.name = "contentScriptType" -> a.lc = "application/ecmascript"
-       [] a.name = "contentStyleType" -> a.lc = "text/css"
+       [] a.name \in {"preserveAspectRatio", "preserveaspectratio"} -> a.lc = "xmidymid meet"
+       [] a.name \in {"baseProfile", "baseprofile"} -> a.lc = "none"
+       \* (an HTML parser lower-cases the attribute names that are not in its SVG adjustment table)
+       [] a.name \in {"contentScriptType", "contentscripttype"} -> a.lc = "application/ecmascript"
+       [] a.name \in {"contentStyleType", "contentstyletype"} -> a.lc = "text/css"
        [] OTHER -> FALSE
 Droppable(e, a) == \/ (SvgLike(e.ns) /\ e.name = "svg" /\ DefaultRootAttr(a))
                    \/ (SvgLike(e.ns) /\ e.name = "style" /\ a.ns = "" /\ a.name = "type" /\ a.lc = "text/css")
@@ -285,13 +286,21 @@ ColourAttrs == {"fill", "stroke", "color", "stop-color", "flood-color", "lightin
 StringAttrs == {"id", "class", "href", "name", "unicode", "glyph-name", "font-family", "lang", "target",
                 "type", "media", "attributeName", "in", "in2", "result", "u1", "u2", "g1", "g2"}
 
+\* media types (RFC 2045): blanks around ";" and "=" are not part of the value, names are case-insensitive
+MediaTypeAttrs == {"contentStyleType", "contentScriptType", "contentstyletype", "contentscripttype", "type"}
+MediaTypeEq(a, b) == Lower(NoWs(a)) = Lower(NoWs(b))
+\* "viewBox ... keeps its value": a viewBox value is a list of numbers; about anything else nothing is claimed
+IsNumberList(v) == LET x == Items(v) IN x # <<>> /\ \A i \in 1..Len(x) : IsNumber(x[i])
+
 ValueOK(a, b) ==
   \/ WsEq(a.val, b.val)
   \/ /\ a.ns = ""
      /\ \/ a.name = "d"                                    \* judged on its own trace line (SvgPath)
         \/ (a.name \in ColourAttrs /\ ColourEq(a, b))
-        \/ (a.name = "viewBox" /\ NumListEq(a.val, b.val))
-        \/ (a.name \notin StringAttrs /\ a.name \notin ColourAttrs /\ a.name # "style" /\ DimEq(a.val, b.val))
+        \/ (a.name \in {"viewBox", "viewbox"} /\ (~IsNumberList(a.val) \/ NumListEq(a.val, b.val)))
+        \/ (a.name \in MediaTypeAttrs /\ MediaTypeEq(a.val, b.val))
+        \/ (a.name \notin StringAttrs /\ a.name \notin ColourAttrs /\ a.name \notin MediaTypeAttrs
+            /\ a.name # "style" /\ DimEq(a.val, b.val))
 
 ---------------------------------------------------------------------------
 (* Attribute clauses, element by element (the trees have the same shape).        *)
